@@ -12,6 +12,7 @@ package main
 import (
 	"bytes"
 	"context"
+	"encoding/hex"
 	"encoding/json"
 	"errors"
 	"fmt"
@@ -119,21 +120,21 @@ func fitCapacity(c capacity, hist []hop) (capacity, uint64) {
 
 // routeSpec describes one route; everything needed to replay it.
 type routeSpec struct {
-	Name       string `json:"name"`
-	Backend    string `json:"backend"`
-	Style      string `json:"style"`
-	Batching   string `json:"batching"`
-	Capacity   string `json:"capacity"`
-	CapClass   string `json:"capacity_class"`
-	CapNodes   uint64 `json:"capacity_nodes"`
-	CapValues  uint64 `json:"capacity_value_bytes"`
+	Name      string `json:"name"`
+	Backend   string `json:"backend"`
+	Style     string `json:"style"`
+	Batching  string `json:"batching"`
+	Capacity  string `json:"capacity"`
+	CapClass  string `json:"capacity_class"`
+	CapNodes  uint64 `json:"capacity_nodes"`
+	CapValues uint64 `json:"capacity_value_bytes"`
 	// WorkingSetNodes is 2D+4 for this history; class "tiny" iff 0 < CapNodes < WorkingSetNodes.
 	WorkingSetNodes uint64 `json:"working_set_nodes"`
-	Reopen     bool   `json:"reopen_every_commit"`
-	NoWriteLog bool   `json:"without_write_log"`
-	Finalize   bool   `json:"finalize_every_version"`
-	StartVer   uint64 `json:"start_version"`
-	History    []hop  `json:"history"`
+	Reopen          bool   `json:"reopen_every_commit"`
+	NoWriteLog      bool   `json:"without_write_log"`
+	Finalize        bool   `json:"finalize_every_version"`
+	StartVer        uint64 `json:"start_version"`
+	History         []hop  `json:"history"`
 
 	cap capacity
 }
@@ -190,6 +191,8 @@ func main() {
 		replay(run.ReplayFile)
 		return
 	}
+
+	runCanaries()
 
 	n := run.Pick(400, 12000)
 	deadline := time.Now().Add(time.Duration(run.Pick(20, 90)) * time.Minute)
@@ -261,7 +264,8 @@ func runCase(i int) {
 		spec := &routes[ri]
 		// Only one database is kept open per case (for the checkpoint route): every in-memory
 		// badger instance holds a 64 MiB memtable arena.
-		keep := i%3 == 0 && spec.Name == "db-a"
+		// (never for a route whose cache is below the working set: its database is not trusted).
+		keep := i%3 == 0 && spec.Name == "db-a" && spec.cap.class != "tiny"
 		res, f := runHistory(spec, spec.History, true, keep)
 		if f == nil && !res.model.Equal(set) {
 			// Harness self-check: the history must end at the content set.
@@ -783,7 +787,14 @@ func replayCheck(spec *routeSpec, hist []hop, logs []writelog.WriteLog, final *l
 				// The replay tree has the nop database and the default cache.
 				sig = "c02/nop-db-lost-node/" + classifyLostNode(logsAsHistory(logs))
 			}
-			return &failure{Sig: sig, What: "replaying the write logs returned by route " + spec.Name + " failed: " + err.Error(),
+			// Write logs produced under an evicting value cache / a cache below the working set.
+			switch spec.cap.class {
+			case "tiny":
+				sig = "c02/cache-below-working-set/wrong-write-log"
+			case "fit", "fit2", "fitv":
+				sig = "c02/value-cache-eviction/wrong-write-log"
+			}
+			return &failure{Sig: sig, Coarse: "wrong-write-log", What: "replaying the write logs returned by route " + spec.Name + " failed: " + err.Error(),
 				Detail: err.Error(), At: lab.HexPairs(final)}
 		}
 		if !root.Equal(&want) {
@@ -844,10 +855,46 @@ func logsAsHistory(logs []writelog.WriteLog) []hop {
 	return out
 }
 
+// Shrinking is done for the first two failures of a signature (and for reclassification
+// candidates). evid keeps the first three witnesses per signature in arrival order, so later
+// failures of the same signature wait until the shrinking ones have been reported.
+type sigState struct{ n, inflight int }
+
 var (
-	shrinkMu    sync.Mutex
-	shrinkCount = map[string]int{}
+	sigMu   sync.Mutex
+	sigCond = sync.NewCond(&sigMu)
+	sigTab  = map[string]*sigState{}
 )
+
+func enterReport(sig string, force bool) (doShrink bool) {
+	sigMu.Lock()
+	defer sigMu.Unlock()
+	st := sigTab[sig]
+	if st == nil {
+		st = &sigState{}
+		sigTab[sig] = st
+	}
+	st.n++
+	doShrink = st.n <= 2 || force
+	if doShrink {
+		st.inflight++
+		return true
+	}
+	for st.inflight > 0 {
+		sigCond.Wait()
+	}
+	return false
+}
+
+func leaveReport(sig string, didShrink bool) {
+	if !didShrink {
+		return
+	}
+	sigMu.Lock()
+	sigTab[sig].inflight--
+	sigCond.Broadcast()
+	sigMu.Unlock()
+}
 
 // report raises a violation for a failed history, with a shrunk history when affordable.
 func report(caseIdx int, set *lab.Model, ref hash.Hash, spec *routeSpec, f *failure, pred func([]hop) *failure) {
@@ -859,12 +906,11 @@ func report(caseIdx int, set *lab.Model, ref hash.Hash, spec *routeSpec, f *fail
 	// survives in the minimal history the failure is filed under its own family.
 	underflowCandidate := spec.cap.class == "default" && spec.Backend != lab.BackendNop && f.Coarse != "" &&
 		strings.HasPrefix(classifyLostNode(spec.History), "after-overwrite")
-	shrinkMu.Lock()
-	shrinkCount[f.Sig]++
-	doShrink := shrinkCount[f.Sig] <= 2 || underflowCandidate
-	shrinkMu.Unlock()
+	entered := enterReport(f.Sig, underflowCandidate)
+	defer leaveReport(f.Sig, entered)
+	doShrink := entered && pred != nil
 	sig := f.Sig
-	if doShrink && pred != nil {
+	if doShrink {
 		min := shrink(spec.History, func(h []hop) bool {
 			g := pred(h)
 			return g != nil && g.Sig == f.Sig
@@ -1169,6 +1215,72 @@ func sensitivity(caseIdx int, rng *rand.Rand, set *lab.Model, root hash.Hash) {
 }
 
 // ---------------------------------------------------------------------------
+// Canaries: fixed minimal witnesses of the open finding "node cache capacity below the working
+// set of one operation", executed at start-up so that its signatures are reported by every run
+// independently of the seed. They go through the same classification rule as generated routes
+// (class "tiny" iff 0 < node capacity < 2D+4) and are silent once the defect is gone.
+
+type canaryStep struct{ op, k, v string }
+
+func canaryHistory(steps []canaryStep) []hop {
+	var out []hop
+	for _, st := range steps {
+		k, _ := hex.DecodeString(st.k)
+		v, _ := hex.DecodeString(st.v)
+		switch st.op {
+		case "ins":
+			out = append(out, mkIns(string(k), append([]byte{}, v...)))
+		case "rem":
+			out = append(out, mkRem(string(k)))
+		default:
+			out = append(out, hop{Op: "commit"})
+		}
+	}
+	return out
+}
+
+func runCanaries() {
+	type canary struct {
+		name     string
+		backend  string
+		capName  string
+		startVer uint64
+		finalize bool
+		steps    []canaryStep
+	}
+	canaries := []canary{
+		{"tiny-cache-wrong-root", lab.BackendBadger, "n1v1", 1000, true, []canaryStep{
+			{"ins", "61ff007f7f", "7f7f"}, {"ins", "7f618000", "6162"}, {"ins", "", "ffff61"}, {"commit", "", ""},
+			{"rem", "7f618000", ""}, {"commit", "", ""},
+		}},
+		{"tiny-cache-panic", lab.BackendPathBadger, "n1v1", 1000, true, []canaryStep{
+			{"ins", "010062010080", "62627f"}, {"ins", "ff", ""}, {"ins", "6200", "0062"}, {"commit", "", ""},
+			{"ins", "7f", "808080"}, {"commit", "", ""},
+		}},
+	}
+	for ci, c := range canaries {
+		spec := &routeSpec{Name: "canary-" + c.name, Backend: c.backend, Style: "fixed", Batching: "fixed", Capacity: c.capName,
+			StartVer: c.startVer, Finalize: c.finalize, History: canaryHistory(c.steps)}
+		for _, cp := range capacities {
+			if cp.name == c.capName {
+				spec.cap = cp
+			}
+		}
+		spec.cap, spec.WorkingSetNodes = fitCapacity(spec.cap, spec.History)
+		spec.CapClass, spec.CapNodes, spec.CapValues = spec.cap.class, spec.cap.nodes, spec.cap.vals
+		run.Eval(1)
+		run.Count("canary_cases", 1)
+		_, f := runHistory(spec, spec.History, false, false)
+		if f == nil {
+			run.Count("canary_cases_passed", 1)
+			continue
+		}
+		run.Violation(f.Sig, "canary "+c.name+": "+f.What, caseWitness{Seed: run.Seed, Case: -1 - ci, Route: spec, Step: f.Step,
+			RootA: f.RootA, RootB: f.RootB, AtCommit: f.At, Detail: f.Detail, Minimal: spec.History, MinimalFailure: f})
+	}
+}
+
+// ---------------------------------------------------------------------------
 // Replay: re-runs the case named in a witness file (cases are functions of
 // (seed, case index) only).
 
@@ -1194,8 +1306,13 @@ func replay(file string) {
 	if doc.Tier != "" {
 		run.Tier = doc.Tier
 	}
-	fmt.Printf("replaying case %d of seed %d\n", doc.Witness.Case, run.Seed)
-	runCase(doc.Witness.Case)
+	if doc.Witness.Case < 0 {
+		fmt.Println("replaying the canaries")
+		runCanaries()
+	} else {
+		fmt.Printf("replaying case %d of seed %d\n", doc.Witness.Case, run.Seed)
+		runCase(doc.Witness.Case)
+	}
 	run.Nontrivial("replay-1")
 	run.Nontrivial("replay-2")
 	run.Finish(0)
